@@ -560,5 +560,5 @@ func Run(c *hx.Ctx) error {
 			c.Sample(op + " => " + ans + "   [" + tc.c.text(tc) + "]")
 		}
 	}
-	return nil
+	return runSkip(c) // skip indexes (skip.go): ops skip / skipset / minmax / mmx / isex / bloom
 }
